@@ -93,6 +93,37 @@ class Infra(Exception):
 SPECIAL_FAIL = {}
 
 
+# name of build -> what the tool under test rejected / what did not compile (packages dropped from that build)
+DROPPED = {}
+
+
+def drop_package(mod, pkg):
+    shutil.rmtree(os.path.join(mod, "corpus", pkg), ignore_errors=True)
+    for f in glob.glob(os.path.join(mod, "l2", "registry_%s_*gen.go" % pkg)):
+        os.remove(f)
+
+
+def drop_files(mod, text):
+    """Removes the program files (source, output, registry entry) named in tool / compiler
+    output. Returns the (package, file) pairs removed."""
+    import re
+    gone = []
+    for base in sorted(set(re.findall(r"(prog_[0-9_]+_x)(?:_gen)?\.go", text))):
+        for src in glob.glob(os.path.join(mod, "corpus", "*", base + ".go")):
+            pkg = os.path.basename(os.path.dirname(src))
+            for f in (src, src[:-3] + "_gen.go", os.path.join(mod, "l2", "registry_%s_%s_gen.go" % (pkg, base))):
+                try:
+                    os.remove(f)
+                except OSError:
+                    pass
+            gone.append((pkg, base))
+    return gone
+
+
+def package_has_programs(mod, pkg):
+    return bool(glob.glob(os.path.join(mod, "corpus", pkg, "prog_*_x.go")))
+
+
 def copy_module(tmp, name):
     """Scratch copy of the harness module whose go.mod points at the tree under test."""
     mod = os.path.join(tmp, "mod_" + name)
@@ -169,11 +200,29 @@ def build_l2(tmp, race, tier, seed, name="l2", genmode="base", kind="mixed", cor
         out, _ = pr.communicate()
         if pr.returncode != 0:
             bad.append((name_, out[-3000:]))
+    DROPPED.pop(name, None)
     if bad:
         msg = "cff (built from /repo) rejected or crashed on generated programs (genmode=%s):\n" % genmode
         for n, o in bad:
             msg += "--- package %s\n%s\n" % (n, o)
-        raise Infra(msg)
+        # Not a verdict on any claimed property (acceptance is C13/C14's matter), but no reason to
+        # stay blind either: drop the files the tool names (else the package), run cff again on
+        # what is left, run the rest, and report the trouble at the end.
+        still = []
+        for n, o in bad:
+            gone = drop_files(mod, o)
+            ok = False
+            if gone and package_has_programs(mod, n):
+                pinfo = [p for p in pkgs if p["name"] == n][0]
+                cmd = [cff, "-quiet", "-genmode", genmode] + (["-auto-instrument"] if pinfo["auto_instr"] else []) + ["cffverif/corpus/" + n]
+                ok = sh(cmd, cwd=mod).returncode == 0
+            if not ok:
+                drop_package(mod, n)
+                still.append(n)
+        pkgs = [p for p in pkgs if p["name"] not in still]
+        if not [p for p in pkgs if not p.get("special")]:
+            raise Infra(msg)
+        DROPPED[name] = msg
     # packages holding shapes that cff accepts but whose output may not compile are
     # compiled on their own first; a failure is a C10 finding, not a build failure
     SPECIAL_FAIL.pop(name, None)
@@ -187,13 +236,39 @@ def build_l2(tmp, race, tier, seed, name="l2", genmode="base", kind="mixed", cor
                 if not f.endswith("_gen.go"):
                     srcs[os.path.basename(f)] = open(f).read()
             SPECIAL_FAIL[name] = dict(package=p["name"], compile_output=r.stdout[-3000:], sources=srcs, genmode=genmode)
-            shutil.rmtree(os.path.join(mod, "corpus", p["name"]))
-            os.remove(os.path.join(mod, "l2", "registry_special_gen.go"))
+            drop_package(mod, p["name"])
     out = os.path.join(tmp, name + ("_race" if race else "") + ".test")
     cmd = [GO126, "test", "-c", "-tags", "verif", "-o", out] + (["-race"] if race else []) + ["./l2"]
     r = sh(cmd, cwd=mod)
     if r.returncode != 0:
-        raise Infra("BUILD-FAILED (generated code or L2 harness does not compile, genmode=%s):\n%s" % (genmode, r.stdout[-6000:]))
+        # generated code of some package does not compile: same policy as above
+        import re
+        first = r.stdout
+        note = ""
+        for attempt in range(12):
+            # the compiler stops after ten errors per package: repeat until what is left builds
+            gone = drop_files(mod, r.stdout)
+            if not gone:
+                failing = sorted(set(re.findall(r"corpus/(p\d\d)/", r.stdout)))
+                for n in failing:
+                    drop_package(mod, n)
+                if not failing:
+                    break
+                note += " packages %s" % failing
+            else:
+                note += " files %s" % [b for _, b in gone]
+            for p in list(pkgs):
+                if not p.get("special") and not package_has_programs(mod, p["name"]):
+                    drop_package(mod, p["name"])
+                    pkgs.remove(p)
+            if not [p for p in pkgs if not p.get("special") and package_has_programs(mod, p["name"])]:
+                break
+            r = sh(cmd, cwd=mod)
+            if r.returncode == 0:
+                break
+        if r.returncode != 0:
+            raise Infra("BUILD-FAILED (generated code or L2 harness does not compile, genmode=%s):\n%s" % (genmode, first[-6000:]))
+        DROPPED[name] = DROPPED.get(name, "") + "BUILD-FAILED: output of cff does not compile (genmode=%s); dropped%s:\n%s" % (genmode, note, first[-4000:])
     nprogs = int(open(os.path.join(mod, "corpus", "nprogs")).read())
     return out, mod, nprogs
 
@@ -238,7 +313,7 @@ def run_replay(binary, path, race=False, verbose=False, timeout=900):
     return r.returncode, r.stdout
 
 
-GMPS = [16, 1, 2, 4, 8, 16, 3, 16, 6, 16, 12, 16, 5, 16, 16, 16]
+GMPS = [16, 1, 2, 4, 8, 16, 3, 40, 6, 16, 12, 64, 5, 16, 33, 16]  # GOMAXPROCS per process (values above the core count are legal)
 
 
 def check(prop, tier, seed):
@@ -270,12 +345,17 @@ def _check(prop, tier, seed, tmp, t0):
     if "l2" in engines:
         try:
             binaries["l2"], _, nprogs = build_l2(tmp, race, tier, seed)
+            if prop == "C15" and DROPPED.get("l2"):
+                raise Infra(DROPPED["l2"])
         except Infra as e:
             if prop != "C15":
                 raise
             # C15 quantifies over user identifiers named like generated ones. If the corpus
             # only builds once those names are replaced by neutral ones, the names are the cause.
             binaries["l2"], _, nprogs = build_l2(tmp, race, tier, seed, name="l2plain", plain=True)
+            if DROPPED.get("l2plain"):
+                raise Infra("also with neutral variable names: " + DROPPED["l2plain"])
+            DROPPED.pop("l2", None)
             os.makedirs(os.path.join(OUT, "replays"), exist_ok=True)
             path = os.path.join(OUT, "replays", "C15_l2_names-break-output_s%d.json" % seed)
             json.dump(dict(property="C15", engine="l2-compile-names", corpus=dict(seed=seed, tier=tier), detail=str(e)[-4000:],
@@ -293,6 +373,9 @@ def _check(prop, tier, seed, tmp, t0):
             pop = "C03scale"
         if eng == "l2" and prop == "C10" and i in (5, 11):
             pop = "C10scale" if i == 5 else "C10scale8"
+        report = None
+        if eng == "l2" and prop == "C01" and i == 5:
+            pop, report = "C10scale", "C01"  # a job with more than 2^16 dependencies (End function of a large collection)
         if eng == "l1":
             pops = L1_POPS[prop]
             pop = pops[(i // len(engines)) % len(pops)]
@@ -303,6 +386,8 @@ def _check(prop, tier, seed, tmp, t0):
         argv = [binaries[eng], "-test.run", "TestSim", "-test.timeout", "0", "-sim.prop", pop, "-sim.tier", tier, "-sim.seed", str(seed),
                 "-sim.proc", str(i), "-sim.secs", str(secs), "-sim.out", os.path.join(tmp, "out_%d.json" % i),
                 "-sim.replaydir", replaydir, "-sim.beginlog", os.path.join(tmp, "begin_%d" % i)]
+        if report:
+            argv += ["-sim.report", report]
         jobs.append((argv, env, os.path.join(tmp, "log_%d" % i)))
         meta.append(eng)
     rcs = run_procs(jobs, secs * 4 + 900)
@@ -357,6 +442,8 @@ def finish(prop, tier, seed, t0, sums, crashes, binaries, race, engines, extra_c
     known = load_known()
     replaydir = os.path.join(OUT, "replays")
     infra = list(extra_infra or [])
+    for bname, msg in sorted(DROPPED.items()):
+        infra.append("build %s ran without the packages the tool under test rejected or broke: %s" % (bname, msg[-3000:]))
     confirmed = list(extra_viol or [])   # (class, msg, path)
     for c in crashes:
         eng = c["engine"]
